@@ -87,6 +87,7 @@ type Gen struct {
 	ob   map[Ty][]int    // pure/now op indices by return type
 	fl   []int           // failing op indices
 	left int             // nodes left in the current program's budget
+	pool []*Node         // recently generated boolean sub-trees (for deliberate repetition)
 }
 
 // NewGen draws a configuration (variables, constants, user operators).
@@ -345,6 +346,7 @@ func (g *Gen) Program() *Node {
 		if g.left == 0 {
 			g.left = 160
 		}
+		g.pool = nil
 		n := g.Expr(t, g.K.MaxDepth)
 		if n.K == KOp || n.K == KIf {
 			return n
@@ -480,6 +482,26 @@ func (g *Gen) ifExpr(t Ty, d int) *Node {
 }
 
 func (g *Gen) boolExpr(d int) *Node {
+	r := g.R
+	// repetition: the same sub-expression at several places of one program
+	// (rewrites that merge or drop "duplicates" must keep every evaluation)
+	if len(g.pool) > 0 && r.P(0.08) {
+		c := g.pool[r.Intn(len(g.pool))].Clone()
+		g.left -= c.Size()
+		return c
+	}
+	n := g.boolExpr1(d)
+	if s := n.Size(); s >= 2 && s <= 14 {
+		if len(g.pool) < 6 {
+			g.pool = append(g.pool, n)
+		} else {
+			g.pool[r.Intn(6)] = n
+		}
+	}
+	return n
+}
+
+func (g *Gen) boolExpr1(d int) *Node {
 	r := g.R
 	w := g.K.BoolBias
 	// weights: and, or, if, not, xor, cmp, eq, ne, between, in, overlap, custom, fail
